@@ -396,3 +396,71 @@ var c12End = Register(Prop[c12Case]{
 })
 
 func TestC12End(t *testing.T) { Check(t, c12End) }
+
+// ---------------------------------------------------------------------------------------
+// titles as the library itself reports them: whatever a title header with unusual blanks, characters or spelling makes of
+// the node's name, the name under which the library attributes the node's lines is the name its visits are counted under
+
+type c11TitleCase struct {
+	Title    string `json:"title"`    // written after "title:" (the blank after the colon is added)
+	Tracking string `json:"tracking"` // "", "always", "never"
+	Laps     int    `json:"laps"`
+}
+
+func runC11Titles(c c11TitleCase) Verdict {
+	hdr := "title: " + c.Title + "\n"
+	if c.Tracking != "" {
+		hdr += "tracking: " + c.Tracking + "\n"
+	}
+	src := hdr + "---\nfirst\n<<jump B>>\n===\ntitle: B\n---\nsecond {visited_count($t)} {visited($t)}\n<<jump {$t}>>\n===\n"
+	storer := variable.NewInMemoryStorer()
+	storer.SetStringValue("t", "")
+	dr, err := ysgo.NewDialogueRunner(storer, "abc", strings.NewReader(src))
+	if err != nil {
+		return Verdict{Discard: "the title is not accepted: " + firstLine(err.Error())}
+	}
+	h := &host{dr: dr, storer: newRecStorer()}
+	name := ""
+	for lap := 1; lap <= c.Laps; lap++ {
+		ev := h.step(0)
+		if ev.K != "line" || ev.Text != "first" {
+			if lap > 1 && ev.K == "err" {
+				return Verdict{Discard: "the reported name cannot be jumped to by expression"}
+			}
+			return failf("title %q: expected the first line, got %s", c.Title, ev)
+		}
+		if lap == 1 {
+			name = ev.Node
+			storer.SetStringValue("t", name)
+		} else if ev.Node != name {
+			return failf("title %q: the start node is reported as %q in lap 1 and as %q in lap %d", c.Title, name, ev.Node, lap)
+		}
+		ev = h.step(0)
+		want := fmt.Sprintf("second %d True", lap)
+		if c.Tracking == "never" {
+			want = "second 0 False"
+		}
+		if ev.K != "line" || ev.Text != want {
+			return failf("the node written 'title: %s' is reported as %q; after it was left through a jump %d times, visited_count/visited of that name give %s, want %q", c.Title, name, lap, ev, want)
+		}
+		if got := dr.Snapshot().VisitedNodes[name]; c.Tracking != "never" && got != lap {
+			return failf("the node written 'title: %s' is reported as %q; after %d visits Snapshot().VisitedNodes = %v", c.Title, name, lap, dr.Snapshot().VisitedNodes)
+		}
+	}
+	return Verdict{NonTrivial: name != strings.TrimSpace(c.Title) || c.Title != strings.TrimSpace(c.Title) || c.Laps > 1, Classes: []string{fmt.Sprintf("reported-differs=%v", name != c.Title)}}
+}
+
+var c11Titles = Register(Prop[c11TitleCase]{
+	ID: "C11", Name: "titles-as-reported",
+	Gen: func(t *rapid.T) c11TitleCase {
+		base := rapid.SampledFrom([]string{"A", "Start", "Ünï", "日本", "a_b", "Node9", "x.y", "title", "B2"}).Draw(t, "base")
+		return c11TitleCase{
+			Title:    rapid.SampledFrom([]string{"", " ", "  "}).Draw(t, "lead") + base + rapid.SampledFrom([]string{"", " ", "  ", "\t", " \t ", "\u00a0", "\u3000"}).Draw(t, "trail"),
+			Tracking: rapid.SampledFrom([]string{"", "", "always", "never"}).Draw(t, "tracking"),
+			Laps:     rapid.IntRange(1, 3).Draw(t, "laps"),
+		}
+	},
+	Run: runC11Titles,
+})
+
+func TestC11Titles(t *testing.T) { Check(t, c11Titles) }
